@@ -15,6 +15,7 @@ pub mod c09_real;
 pub mod c12;
 pub mod c13;
 pub mod c14;
+pub mod c15;
 pub mod c16;
 pub mod c17;
 pub mod c18;
@@ -46,6 +47,7 @@ pub fn registry() -> Vec<Check> {
         Check { id: "C12", run: c12::run, replay: c12::replay, worker: Some(c12::worker) },
         Check { id: "C13", run: c13::run, replay: c13::replay, worker: None },
         Check { id: "C14", run: c14::run, replay: c14::replay, worker: None },
+        Check { id: "C15", run: c15::run, replay: c15::replay, worker: Some(c15::worker) },
         Check { id: "C16", run: c16::run, replay: c16::replay, worker: None },
         Check { id: "C20", run: c20::run, replay: c20::replay, worker: None },
         Check { id: "C19", run: c19::run, replay: c19::replay, worker: None },
